@@ -3,9 +3,11 @@ The list of op handlers of the driver.  One import and one list entry per compon
 -/
 import Driver.RegistryOps
 import Driver.DispatchOps
+import Driver.NormalizeOps
+import Driver.TablesOps
 
 namespace Driver
 
-def handlers : List Handler := [registryHandler, dispatchHandler]
+def handlers : List Handler := [registryHandler, dispatchHandler, normalizeHandler, tablesHandler]
 
 end Driver
